@@ -106,9 +106,7 @@ func checkRoute(t *testing.T, c RouteCase) (v harness.Verdict) {
 	var bes []*reflog.Log
 	var logIDs [][32]byte
 	_, trusted := trustFor(c.Chain, c.NotAfter)
-	if c.Chain.Lone {
-		v.Class("chain:lone-root")
-	}
+	chainClasses(&v, c.Chain)
 	for i, w := range sh {
 		w := w
 		k := keys.Pick("p256", 30+i)
@@ -176,6 +174,8 @@ func checkRoute(t *testing.T, c RouteCase) (v harness.Verdict) {
 			v.Class("route:in-span")
 			host := fmt.Sprintf("shard%d.example", want)
 			switch {
+			case total == 0:
+				v.Failf("route-inside-span-not-submitted", "NotAfter %v belongs to shard %d %v, whose server admits it, but the temporal client submitted it nowhere: %v", s, want, sh[want], err)
 			case total != 1 || after[host]-before[host] != 1:
 				v.Failf("route-wrong-shard", "NotAfter %v belongs to shard %d %v only, requests went to %v (err %v)", s, want, sh[want], hit, err)
 			case err != nil:
